@@ -187,4 +187,26 @@ theorem cacgMstep_hard_spiked {K N D : Nat} {a : Fin K → Fin (D+1) → ℂ} {c
     simp only [cacgEigvals, rd_tab, hmx, hev0 e he]
     rw [zero_div, max_eq_right hf0]
 
+/-! ### a concrete `eigh` (non-vacuity of `EighOn`) -/
+
+/-- `eigh` of a real diagonal 2×2 matrix: identity eigenvectors, the diagonal as eigenvalues -/
+noncomputable def diagEigh (A : Tab 2 (Tab 2 ℂ)) : Tab 2 (Tab 2 ℂ) × Tab 2 ℝ :=
+  (tab2 fun g e => if g = e then 1 else 0, tab fun e => (rd2 A e e).re)
+
+theorem diagEigh_spec (A : Tab 2 (Tab 2 ℂ)) (x : Fin 2 → ℝ)
+    (hA : ∀ d e, rd2 A d e = if d = e then ((x d : ℝ) : ℂ) else 0) : EighSpec A (diagEigh A) := by
+  refine ⟨?_, ?_⟩
+  · intro e e'
+    fin_cases e <;> fin_cases e' <;> simp [diagEigh]
+  · intro e d
+    fin_cases e <;> fin_cases d <;> simp [diagEigh, hA]
+
+theorem eighOn2 (tiny : ℝ) : EighOn (D := 1) diagEigh tiny a2 := by
+  intro w q
+  refine diagEigh_spec _ (fun d => ((1 + 1 : ℕ) : ℝ) * (w d / max (q d) (((10 : ℕ) : ℝ) * tiny)) / max (w 0 + w 1) tiny) ?_
+  intro d e
+  rw [cacgScatter_eq]
+  have h2 : conj (2:ℂ) = 2 := map_ofNat _ 2
+  fin_cases d <;> fin_cases e <;> simp [a2, Fin.sum_univ_two, h2] <;> ring
+
 end PbBss.FixedPoint
